@@ -240,7 +240,7 @@ Lemma poll_one_events pin idx h st next :
   filter is_dr (map (enc_bev pin idx) (snd (b_poll h st next))) = [ev [1; pin; boolz next]] /\
   b_value (fst (b_poll h st next)) = next.
 Proof.
-  split; [|reflexivity]. unfold b_poll. cbn [snd map enc_bev filter is_dr ev].
+  split; [|reflexivity]. unfold b_poll. cbv zeta. cbn [snd map enc_bev filter is_dr ev b_prev b_value b_is_pressed].
   f_equal. apply filter_dr_none.
   destruct h as [n|]; [|constructor]. destruct (next && negb (b_prev st)); [|constructor].
   cbn [map enc_bev]. constructor; [reflexivity|].
